@@ -14,6 +14,19 @@ CLAIMED = {
     ),
 }
 
+CLAIMED["C20"] = (
+    "Go race detector + invocation-log/at-most-once monitor over concurrent FormatFile calls with recording stand-in tools",
+    "One shared generator.Formatters is hit by N goroutines released together, for tool configurations present/missing/failing, in a binary built with -race from the working tree; PATH holds only recording stand-ins. Decided on: race detector log (reports counted and de-duplicated), probe count per cache (<=1), one formatter run per request when present, nil error + untouched bytes when missing, non-nil error when failing. The real cmd binary (-race) is run in config mode writing >=6 files through its goroutine-per-output path. Held on the interleavings produced; overlap of tool processes and distinct completion orders are reported.",
+    "Trusted: stand-in tools model the real ones (probe/format command lines read off formatters.go); race detector sees only executed interleavings.",
+    "DESIGN.md section 5 / C20",
+)
+CLAIMED["C17"] = (
+    "oracle on LoadSources results over generated directory layouts, ground truth from go list",
+    "Generated module layouts (prefix-sharing siblings, nesting, mixed depth, root+child) x file-set forms (abs/rel/../, duplicates, same package, all) and the error cases are loaded through the real analysis.LoadSources in worker processes with their own cwd; checked: no panic, one error-free type-checked package per file containing that file, root an existing directory and path-component ancestor of every file, errors for the error cases.",
+    "Trusted: packages.Load / go list of the installed toolchain as ground truth for package membership.",
+    "DESIGN.md section 5 / C17",
+)
+
 NOT_YET = "check not built yet (work in progress, see DESIGN.md section 5 for the planned monitor)"
 NOT_APPLICABLE = {}
 
